@@ -53,6 +53,8 @@ def pick_combos(lines, rnd, per_stratum):
         xs = sorted(strata[k], key=lambda l: json.dumps(l, sort_keys=True))
         rnd.shuffle(xs)
         out += xs[:per_stratum]
+    # combinations with exactly one valid pair first (the in-run binding self-test repeats the first ones)
+    out.sort(key=lambda l: 0 if (l["kind0"] == "valid") != (l["kind1"] == "valid") else 1)
     return out
 
 
@@ -72,7 +74,7 @@ def pick_histories(hs, rnd, n):
     return chosen
 
 
-def judge_cond(res, report):
+def judge_cond(res, report, selftest=False):
     st = {"cases": 0, "accept": 0, "reject": 0, "combos": set(), "outer": 0, "shapes": 0, "unavailable": 0, "skipped": {}}
     shape = {}
     for x in res:
@@ -86,7 +88,7 @@ def judge_cond(res, report):
         if x.get("unavailable"):
             st["unavailable"] += 1
             continue
-        if "combo" not in x:
+        if "combo" not in x or bool(x.get("selftest")) != selftest:
             continue
         st["cases"] += 1
         payload = {"kind": "conditional", "shape_id": x["id"], "shape": shape.get(x["id"]), "expected": {"spec": x["expect"], "rule": "accept iff the selected (proof, verifier data) is natively valid"},
@@ -139,8 +141,9 @@ def judge_dummy(res, report):
 
 
 def judge_cyclic(res, report):
-    st = {"steps": 0, "step_ok": 0, "step_rejected": 0, "histories": set(), "matched": 0, "proofs_made": 0, "altered_checked": 0, "max_chain": 0}
+    st = {"steps": 0, "step_ok": 0, "step_rejected": 0, "histories": set(), "matched": 0, "proofs_made": 0, "altered_checked": 0, "max_chain": 0, "rejected_after": set()}
     foreign_now = {}
+    last_act = {}
     for x in res:
         if "skipped" in x:
             raise ToolError("cyclic harness: %s" % x["skipped"])
@@ -167,6 +170,7 @@ def judge_cyclic(res, report):
                 st["max_chain"] = max(st["max_chain"], o["counter"])
             else:
                 st["step_rejected"] += 1
+                st["rejected_after"].add(last_act.get(hk, "-"))
             if e["step"] == "ok" and x["step_outcome"] != "ok":
                 bad.append(("step-failed", "a step on a proper chain proof did not yield a verifying proof (%s)" % x["stage"]))
             if e["step"] == "rejected" and x["step_outcome"] == "ok":
@@ -186,6 +190,7 @@ def judge_cyclic(res, report):
                 bad.append(("counter", "counter %d, expected %d" % (o["counter"], e["counter"] * x["inc"])))
             if o["start"] != x["start"]:
                 bad.append(("start", "the start value is not carried along the chain"))
+        last_act[hk] = x["act"]
         for k, d in bad:
             report("violation", "C20/cyclic/%s/%s" % (k, x["act"]), d, payload)
         if not bad:
@@ -252,13 +257,16 @@ def run(chk, tier):
     for si in range(ncond):
         for k in range(5):
             cond_rows.append({"id": "c%d_%d" % (si, k), "slot": si, "prog": pick(p1)["prog"], "cfg": STD if si == 0 else pick(strong), "inputs": pick(classes),
-                              "pad": pick([2, 20, 60]), "combos": pick_combos(combos, rnd, 4 if thorough else 1), "sample": 2})
+                              "pad": pick([2, 20, 60]), "combos": pick_combos(combos, rnd, 4 if thorough else 1), "sample": 2,
+                              "selftest": 8 if si == 0 else 0})
     dummy_rows = [{"id": "d%d" % i, "prog": pick(p1)["prog"], "cfg": STD if i % 3 == 0 else pick(strong), "inputs": pick(classes), "pad": pick([0, 3, 30])}
                   for i in range(ndummy)]
-    hs = pick_histories(list(hist4), rnd, 40 if thorough else 9)
+    # a chain of three proofs is always part of the replay; two base-case variants (all-zero map / a start value)
+    long3 = sorted([h for h in hist4 if h[2]["expect"]["counter"] == 3], key=lambda h: json.dumps(h, sort_keys=True))
+    hs = [long3[rnd.randrange(len(long3))]] + pick_histories(list(hist4), rnd, 40 if thorough else 8)
     if thorough:
         hs += pick_histories(list(hist5), rnd, 12)
-    cyc_row = {"id": "y0", "histories": [{"start": (0 if i % 2 else 7 + i), "steps": h} for i, h in enumerate(hs)]}
+    cyc_row = {"id": "y0", "histories": [{"start": (0 if i % 3 == 2 else 7), "steps": h} for i, h in enumerate(hs)]}
     # ---- B: the three replays side by side
     with ThreadPoolExecutor(max_workers=3) as ex:
         f1 = ex.submit(vh, "cyclic", [cyc_row], "c20_cyclic")
@@ -290,17 +298,16 @@ def run(chk, tier):
     chk.sample({"cyclic_result": next((x for x in rcy if x.get("act") == "StepRec"), None)})
     chk.extra["conditional"] = {k: (len(v) if isinstance(v, set) else v) for k, v in sc.items()}
     chk.extra["dummy"] = sd
-    chk.extra["cyclic"] = {k: (len(v) if isinstance(v, set) else v) for k, v in sy.items()}
+    chk.extra["cyclic"] = {k: (sorted(v) if k == "rejected_after" else len(v) if isinstance(v, set) else v) for k, v in sy.items()}
     if sc["shapes"] < ncond or sc["accept"] < 8 * sc["shapes"] or sc["reject"] < 8 * sc["shapes"] or sc["outer"] < sc["shapes"]:
         raise ToolError("vacuity (conditional): %s" % chk.extra["conditional"])
     if sd["dummy_circuits"] < ndummy // 3 or sd["proofs"] < sd["dummy_circuits"] * 3:
         raise ToolError("vacuity (dummy): %s" % sd)
-    if sy["step_ok"] < 6 or sy["step_rejected"] < 3 or sy["altered_checked"] < 5 or sy["max_chain"] < 3:
+    if sy["step_ok"] < 6 or len(sy["rejected_after"]) < (3 if thorough else 2) or sy["altered_checked"] < 5 or sy["max_chain"] < 3:
         raise ToolError("vacuity (cyclic): %s" % chk.extra["cyclic"])
     # ---- binding canaries
     flagged = []
-    cres = vh("cond", [dict(r, id="k" + r["id"]) for r in cond_rows if r["slot"] == 0], "c20_canary", extra=["--selftest"])
-    judge_cond(cres, lambda kind, key, d, p: flagged.append(key) if kind == "violation" else None)
+    judge_cond(rco, lambda kind, key, d, p: flagged.append(key) if kind == "violation" else None, selftest=True)
     chk.canary("binding: assigning the opposite condition is reported as a disagreement with the selected pair's validity",
                any(k.startswith("C20/conditional/") for k in flagged))
     flagged = []
